@@ -85,3 +85,38 @@ package index
 //@   abstract ensures (err == nil && !removed) || err != nil ==> idx.$Ein == old(idx.$Ein)
 //@   abstract ensures err != nil ==> !removed
 //@   abstract ensures err != types.ErrKeyExists
+
+// ---------------------------------------------------------------------------
+// C16: lock discipline ("guarded by"). Every read or write of a listed field, in every
+// function of the package, must happen with the named lock held by the calling thread.
+//@ type Index
+//@   guarded_by nextPool, outstandingWork : bucketLk read bucketLk.R
+//@   guarded_by curPool : flushLock & bucketLk read flushLock | bucketLk.R
+//@   guarded_by file, writer, fileNum, length : flushLock
+
+//@ func (idx *Index) readCached(bucket BucketIndex) (data []byte, ok bool)  property C16
+//@   holds r(idx.bucketLk)
+//@   ensures ok ==> data == ite(bucket in idx.nextPool, idx.nextPool[bucket], idx.curPool[bucket])
+//@   ensures ok == ((bucket in idx.nextPool) || (bucket in idx.curPool))
+//@   ensures !ok ==> data == nil
+
+//@ func (idx *Index) flushBucket(bucket BucketIndex, newData []byte) (blk types.Block, work types.Work, err error)  property C16
+//@   holds idx.flushLock
+//@   modifies idx.file, idx.fileNum, idx.length, heap("G:os.File.$open")
+
+// Iteration is documented as not safe against concurrent writers ("any write to the store
+// potentially invalidates the iterator") and is not among the operations C16 lists.
+//@ func (iter *Iterator) Next() (rec Record, done bool, err error)  property C16
+//@   exclusive index iteration is single-threaded by documentation
+
+//@ func (idx *Index) Close() (err error)  property C16
+//@   exclusive Close runs after all users of the index have stopped (Store.Close contract, C17)
+
+//@ func (idx *Index) readBucketInfo(bucket BucketIndex) (cached []byte, pos types.Position, fileNum uint32, err error)  property C16
+//@   holds r(idx.bucketLk)
+
+//@ func (idx *Index) getRecordsFromBucket(bucket BucketIndex) (rl RecordList, err error)  property C16
+//@   holds r(idx.bucketLk)
+
+//@ func (idx *Index) Close$1()  property C16
+//@   exclusive Close runs after all users of the index have stopped (Store.Close contract, C17)
